@@ -179,7 +179,7 @@ def plan(tier, seed):
         for ka in (False, True):
             for kind in ("read", "write", "multi"):
                 specs.append({"transport": transport, "ka": ka, "kind": kind, "R": 3 if tier == "quick" else 4,
-                              "Ts": [1] if tier == "quick" else [1, 0.5, 3]})
+                              "Ts": [1] if tier == "quick" else [1, 0.5, 3, 0.25, 10]})
     return specs
 
 
